@@ -181,7 +181,7 @@ const checkTimeout = 12 * time.Second
 
 type tally struct {
 	histories, linearizable, illegal, unknown, ops, raceHist int
-	depsProgs, depsOverlaps, depsInverted                    int
+	depsProgs, depsOverlaps, depsInverted, depsQueries       int
 }
 
 // checkHistory is the property's oracle on one recorded history.
@@ -347,8 +347,12 @@ func checkDeps(r *hk.Run, h *history, t *tally) {
 	}
 	t.depsOverlaps += d.Overlaps
 	t.depsInverted += d.Inverted
+	if d.Late {
+		r.Hit("ixdeps:deleted-permanode-delivered-after-its-delete-claim(last)")
+	}
+	t.depsQueries += d.Queries
 	for _, p := range d.Problems {
-		r.Fail(p.Sig, p.Detail, p.Exp, p.Obs, nil)
+		r.Fail(p.Sig, p.Detail, p.Exp, p.Obs, d.Ops)
 	}
 }
 
@@ -363,7 +367,10 @@ func Run(r *hk.Run) {
 	}
 
 	// the -race binary is built while the in-process batch runs
-	type built struct{ bin, note string; err error }
+	type built struct {
+		bin, note string
+		err       error
+	}
 	bc := make(chan built, 1)
 	go func() { b, n, e := buildRaceBinary(); bc <- built{b, n, e} }()
 
@@ -420,7 +427,7 @@ func Run(r *hk.Run) {
 		r.Hit("nested-rlock:deadlock-reproduced")
 	}
 
-	r.Note(fmt.Sprintf("dependent-blob index programs=%d (dependent/dependency receives overlapping: %d pairs; dependent acknowledged first: %d pairs), each compared at quiescence with a sequential feed", t.depsProgs, t.depsOverlaps, t.depsInverted))
+	r.Note(fmt.Sprintf("dependent-blob index programs=%d (dependent/dependency receives overlapping: %d pairs; dependent acknowledged first: %d pairs; %d sorted permanode enumerations by querier clients during the feeds), each compared at quiescence with a sequential feed", t.depsProgs, t.depsOverlaps, t.depsInverted, t.depsQueries))
 	r.Note(fmt.Sprintf("histories=%d (under -race: %d) linearizable=%d not-linearizable=%d undecided=%d calls=%d; in-process batch %.1fs",
 		t.histories, t.raceHist, t.linearizable, t.illegal, t.unknown, t.ops, inprocWall.Seconds()))
 }
